@@ -152,6 +152,35 @@ func csvTokenUnit[T any](c *core.Ctx, shape string, first int, maxLen int) {
 			if n == 200 {
 				c.Sample(info)
 			}
+			// the file-based entry point (ReadFromFile: Waitable + a goroutine that closes the file) on the short inputs
+			if depth <= 4 {
+				file := filepath.Join(tmpBase(), "c19-in.csv")
+				os.WriteFile(file, []byte(prefix), 0o600)
+				var gotF []*T
+				var ferr error
+				resF := mc.Run(func() {
+					cs, _ := helper.NewCsv[T](header)
+					cs.Logger = quietLogger
+					var ch <-chan *T
+					ch, ferr = cs.ReadFromFile(file)
+					if ferr == nil {
+						gotF = drain(ch)
+					}
+				}, mc.Options{})
+				n++
+				c.Executions++
+				c.Transitions += int64(resF.Events)
+				switch {
+				case len(resF.Panics) > 0:
+					c.Fail("", fmt.Sprintf("Csv.ReadFromFile (%s, header=%v) panics on file content %q: %s", shape, header, prefix, resF.Panics[0].Value), info)
+				case resF.Deadlock:
+					c.Fail("", fmt.Sprintf("Csv.ReadFromFile (%s, header=%v) hangs or leaks a goroutine on file content %q (%s)", shape, header, prefix, blockedDesc(resF)), info)
+				case ferr != nil:
+					c.Fail("", fmt.Sprintf("Csv.ReadFromFile (%s, header=%v) fails on a readable file with content %q: %v", shape, header, prefix, ferr), info)
+				case !rowsEq(gotF, want):
+					c.Fail("", fmt.Sprintf("Csv.ReadFromFile (%s, header=%v) on file content %q delivered %s, the well-formed prefix is %s", shape, header, prefix, descRows(gotF), descRows(want)), info)
+				}
+			}
 		}
 		if depth == maxLen {
 			return
@@ -344,7 +373,7 @@ func filesUnit(c *core.Ctx) {
 func init() {
 	core.Register(&core.Check{
 		ID:   "C19",
-		Rule: "bounded-exhaustive token strings: CSV inputs = all strings of up to 6 (7 thorough) tokens over {a, 1, comma, quote, newline, 'x,1', a date} fed to ReadFromReader for three row shapes with and without header; JSON inputs = all strings of up to 4 (5 thorough) tokens over {[ ] { } , 1 \"a\" : null <valid record>} fed to JSONToChan and, as HTTP bodies with statuses {200,204,301,400,401,404,429,500}, to TiingoRepository.GetSince through a synchronous fake transport; unreadable/missing files. Every input is one controlled execution with an independent reader: a panic in the reader goroutine, a reader that never closes its stream or a leaked goroutine is a violation, delivered rows must equal the rows of the well-formed prefix according to a reference reader built on encoding/csv / encoding/json; non-200 statuses and missing files must yield errors. states = inputs, non-trivial = inputs whose well-formed prefix has at least one record",
+		Rule: "bounded-exhaustive token strings: CSV inputs = all strings of up to 6 (7 thorough) tokens over {a, 1, comma, quote, newline, 'x,1', a date} fed to ReadFromReader (and, up to 4 tokens, through a file to ReadFromFile) for three row shapes with and without header; JSON inputs = all strings of up to 4 (5 thorough) tokens over {[ ] { } , 1 \"a\" : null <valid record>} fed to JSONToChan and, as HTTP bodies with statuses {200,204,301,400,401,404,429,500}, to TiingoRepository.GetSince through a synchronous fake transport; unreadable/missing files. Every input is one controlled execution with an independent reader: a panic in the reader goroutine, a reader that never closes its stream or a leaked goroutine is a violation, delivered rows must equal the rows of the well-formed prefix according to a reference reader built on encoding/csv / encoding/json; non-200 statuses and missing files must yield errors. states = inputs, non-trivial = inputs whose well-formed prefix has at least one record",
 		Assume: []string{"byte strings are token strings over the stated alphabets", "the reference reader uses the standard library tokenisers themselves, so the check does not out-demand encoding/csv or encoding/json"},
 		Units: func(tier string) []core.Unit {
 			cl, jl := 6, 4
